@@ -81,6 +81,9 @@ class LoaderSummary:
     containers_created: Dict[str, str] = field(default_factory=dict)    # var -> creating expression text
     problems: List[Tuple[str, int]] = field(default_factory=list)
     absence: List[Tuple[Optional[Path], str, int]] = field(default_factory=list)   # (looked-up path, decision, line)
+    # how the presence of an OPTIONAL key is probed: 'contains' (`k in data`), 'subscript' (try data[k] / except KeyError without
+    # a rejection), 'get' (.get(k, sentinel)); the three differ on mappings with __missing__ (defaultdict, Counter)
+    probes: List[Tuple[Optional[Path], str, int]] = field(default_factory=list)
     forbid_guards: List[Tuple[str, List[str], Optional[str], int]] = field(default_factory=list)
     # (data var, tests of the ifs that enclose the unknown-key computation, test guarding the rejection, line)
 
@@ -322,6 +325,25 @@ def audit_loader(fn: ast.FunctionDef) -> LoaderSummary:
                     continue
                 expr = expr.args[0]
             _record_reject(S, expr, st.lineno, var_path)
+    # probes of optional keys
+    for node in ast.walk(fn):
+        if isinstance(node, ast.If) and isinstance(node.test, ast.Compare) and len(node.test.ops) == 1 \
+                and isinstance(node.test.ops[0], (ast.In, ast.NotIn)) and isinstance(node.test.left, ast.Constant) \
+                and isinstance(node.test.comparators[0], ast.Name) and node.test.comparators[0].id in var_path:
+            S.probes.append((var_path[node.test.comparators[0].id] + (node.test.left.value,), "contains", node.lineno))
+        elif isinstance(node, ast.Try) and len(node.body) == 1 and isinstance(node.body[0], ast.Assign):
+            v = node.body[0].value
+            if isinstance(v, ast.Subscript) and isinstance(v.value, ast.Name) and v.value.id in var_path and isinstance(v.slice, ast.Constant):
+                for h in node.handlers:
+                    hn = norm(h.type) if h.type is not None else "bare"
+                    rejects = any(isinstance(x, ast.Raise) for x in ast.walk(h)) or any(
+                        isinstance(x, ast.Call) and isinstance(x.func, ast.Attribute) and x.func.attr == "append"
+                        and norm(x.func.value) == "errors" for x in ast.walk(h))
+                    if hn in ("KeyError", "LookupError") and not rejects:
+                        S.probes.append((var_path[v.value.id] + (v.slice.value,), "subscript", node.lineno))
+    for pth, dec, line in S.absence:
+        if dec == "key-missing" and pth is not None and not any(p == pth for p, _k, _l in S.probes):
+            S.probes.append((pth, "get", line))
     return S
 
 
